@@ -9,12 +9,23 @@
 (*   - it is ONE OF the results TxPool.tla permits for that call in the    *)
 (*     previously observed state (AddSucc / RemoveSucc / ReorgSenderSucc), *)
 (*   - a call that did not return (watchdog) or panicked is reported.      *)
+(* A promotion step that the harness suspends inside the verifier (lines   *)
+(* "ilv") is checked as a PARTIAL step: what it may have promoted / dropped *)
+(* between two observations, given the verifier calls it made so far.      *)
+(* The line of a concurrent run carries what every goroutine was told      *)
+(* (accepted adds, removes issued, verdicts set, every read result); the    *)
+(* state at quiescence and the read results are checked against it.        *)
+(* "recheck" lines hold a value an earlier read returned, read again after  *)
+(* later calls: it must not have changed.                                  *)
 (* Monitor style: a failed check prints                                    *)
 (*     <<"MISMATCH", line, kind, detail, secondary>>                       *)
 (* and the monitor continues from the OBSERVED state.  An invariant is     *)
 (* reported at the line that breaks it, not again while it stays broken;   *)
 (* secondary = 1 marks reports made while the previous observed state      *)
 (* already had disagreeing indexes (consequences of an earlier report).    *)
+(* <<"NOTE", line, kind, detail>> lines are coverage notes (behaviour the   *)
+(* statement permits but today's implementation does not show, or the      *)
+(* other way round); they are counted, never reported.                     *)
 (***************************************************************************)
 EXTENDS TxPool, Json
 
@@ -26,8 +37,9 @@ T(id) == TxTab[id]
 TTxs == {TxTab[i] : i \in 1..Len(TxTab)}
 TSenders == 1..TraceLog[1].senders
 
-VARIABLES l, pre, cfg, verd
-tvars == <<l, pre, cfg, verd>>
+VARIABLES l, pre, cfg, verd,
+          aux    \* the suspended promotion step: state when it started, verifier calls it made before the suspension
+tvars == <<l, pre, cfg, verd, aux>>
 
 Ev == TraceLog[l]
 SeqSet(s) == {s[i] : i \in 1..Len(s)}
@@ -45,6 +57,11 @@ Obs(sn) ==
 Sec == IF IndexesAgree(pre) THEN 0 ELSE 1
 Report(kind, detail) == PrintT(<<"MISMATCH", l, kind, detail, Sec>>)
 Chk(c, kind, detail) == IF c THEN TRUE ELSE Report(kind, detail)
+Note(kind, detail) == PrintT(<<"NOTE", l, kind, detail>>)
+\* (IF, not a disjunction: TLC would explore both sides of a disjunction inside the next-state action)
+NoteUnless(c, kind, detail) == IF c THEN TRUE ELSE Note(kind, detail)
+SetMax(S) == CHOOSE x \in S : \A y \in S : x >= y
+IdSet(a) == {T(a[i]) : i \in 1..Len(a)}
 \* an invariant is reported where it becomes false
 ChkNew(P(_), o, kind, detail) == IF P(o) \/ ~P(pre) THEN TRUE ELSE Report(kind, detail)
 
@@ -76,8 +93,10 @@ RawChecks(sn) ==
        LET a == sn.acc[i] IN
        /\ Chk(Len(a.heap) = Cardinality(SeqSet(a.heap)), "duplicate-nonce", "nonce-heap")
        /\ Chk(SeqSet(a.heap) = {a.txs[j][1] : j \in 1..Len(a.txs)}, "index-disagree", "sender-nonce-heap-vs-transactions")
-  /\ Chk(\A i \in 1..Len(sn.q) : sn.q[i][2] = Prio(T(sn.q[i][1])), "index-disagree", "feeQueue-priority")
-  /\ Chk(\A i \in 1..Len(sn.q) : sn.q[1][2] <= sn.q[i][2], "index-disagree", "feeQueue-head-not-minimum")
+  \* how the fee queue is ordered and which number it stores as priority is representation: the statement leaves the
+  \* victim of a full pool open, so neither can falsify it (notes only)
+  /\ NoteUnless(\A i \in 1..Len(sn.q) : sn.q[i][2] = Prio(T(sn.q[i][1])), "feeQueue-priority", "")
+  /\ NoteUnless(\A i \in 1..Len(sn.q) : sn.q[1][2] <= sn.q[i][2], "feeQueue-head-not-minimum", "")
 
 (* ------------------------------ per call --------------------------------- *)
 Where(o, x) == (IF x \in o.all THEN {"allTransactions"} ELSE {})
@@ -92,6 +111,8 @@ AddDiag(o, t, v, ok) ==
   ELSE IF ok /\ ~(t \in o.all /\ t \in ListTxs(o, s)) THEN "accepted-but-not-pooled"
   ELSE IF ~ok /\ t \notin pre.all /\ Where(o, t) # {} THEN "rejected-but-pooled"
   ELSE IF ok /\ (\E x \in old : t.fee < x.fee + cfg.diff) /\ ~PoolFull(cfg, pre) THEN "replacement-without-fee-increase"
+  ELSE IF ok /\ AllRunsArePrefixes(pre) /\ (\E x \in old : t.fee < x.fee + cfg.diff /\ x \notin CheapestVictims(pre) /\ Where(o, x) = {})
+       THEN "replacement-without-fee-increase-at-full-pool"
   ELSE IF \E x \in old : ok /\ Where(o, x) # {} THEN "replaced-still-pooled"
   ELSE IF \E x \in ListAll(pre) \ ListAll(o) : x \in o.all \/ x \in ToSet(o.feeQ) THEN "evicted-still-pooled"
   ELSE IF Cardinality(o.all) > cfg.max THEN "over-capacity-pool"
@@ -105,13 +126,16 @@ AddChecks(e, o) ==
   LET t == T(e.t)  v == verd[e.t]  ok == e.res = 1  s == t.sender
       old == At(pre, s, t.nonce) \ {t}
       left == ListTxs(pre, s) \ (ListTxs(o, s) \cup old)
+      \* environment answer of conn.Publish; the announcement handler (via = "announce") reports no result at all
+      pubok == ~(Has(e, "pub") /\ e.pub = "fail") /\ ~(Has(e, "via") /\ e.via = "announce")
   IN
   \* a replaced transaction is gone from every index
   /\ \A x \in old : (ok /\ t \in ListTxs(o, s)) => \A w \in Where(o, x) : Report("stale-after-replacement", w)
   \* whatever else left the sender's list (per-sender limit) is gone from the other indexes as well
   /\ \A x \in left : \A w \in Where(o, x) : Report("stale-after-sender-eviction", w)
   /\ IF ~IndexesAgree(pre) THEN TRUE
-     ELSE IF [st |-> Canon(o), ok |-> ok] \in {[st |-> Canon(r.st), ok |-> r.ok] : r \in AddSucc(cfg, pre, t, v)} THEN TRUE
+     ELSE IF [st |-> Canon(o), ok |-> ok] \in {[st |-> Canon(r.st), ok |-> r.ok] : r \in AddSuccPub(cfg, pre, t, v, pubok)}
+     THEN NoteUnless(AddDiag(o, t, v, ok) # "rejected-without-reason", "rejected-without-reason", "")
      ELSE Report("not-a-successor:add", AddDiag(o, t, v, ok))
 
 RemoveChecks(e, o) ==
@@ -124,21 +148,93 @@ RemoveChecks(e, o) ==
               ELSE IF Where(o, t) # {} THEN "still-pooled"
               ELSE "other")
 
+CallsOK(cs) == {T(cs[i].t) : i \in {j \in 1..Len(cs) : cs[j].v # "invalid"}}
+CallsBad(cs) == {T(cs[i].t) : i \in {j \in 1..Len(cs) : cs[j].v = "invalid"}}
+ProcOf(st, s) == {x \in ProcTxs(st) : x.sender = s}
+
+ReorgDiag(o, s) ==
+  IF \E x \in (ProcTxs(o) \ ProcTxs(pre)) : x.sender = s /\ verd[x.id] = "invalid" THEN "promoted-invalid"
+  ELSE IF ListTxs(o, s) # ListTxs(pre, s) /\ \A x \in RunTxs(pre, s) : verd[x.id] # "invalid" THEN "dropped-without-invalid-answer"
+  ELSE IF \E x \in ProcOf(o, s) \cap ProcOf(pre, s) : x \in RunTxs(pre, s) /\ verd[x.id] = "invalid" THEN "invalid-stays-processable"
+  ELSE "other"
+
+\* one complete promotion step of sender s between pre and o
+ReorgSenderChecks(o, s, ans) ==
+  IF \E r \in ReorgSenderSucc(pre, s, ans) : r.st.list[s] = o.list[s] /\ r.st.proc[s] = o.proc[s]
+  THEN LET full == ReorgSenderFull(pre, s, ans) IN
+       NoteUnless((full.list[s] = o.list[s] /\ full.proc[s] = o.proc[s]) \/ ~IsPrefixState(pre, s),
+                  "reorg-step-not-maximal", "")
+  ELSE Report("not-a-successor:reorg", ReorgDiag(o, s))
+
 ReorgChecks(e, o) ==
-  LET ans == [t \in Txs |-> verd[t.id]]
-      asked == {T(e.calls[i].t) : i \in {j \in 1..Len(e.calls) : e.calls[j].v # "invalid"}}
-  IN
+  LET ans == [t \in Txs |-> verd[t.id]] IN
   \* every newly processable transaction was verified in this step and not answered invalid
-  /\ Chk((ProcTxs(o) \ ProcTxs(pre)) \subseteq asked, "processable-unverified", "")
+  /\ Chk((ProcTxs(o) \ ProcTxs(pre)) \subseteq CallsOK(e.calls), "processable-unverified", "")
   /\ IF ~IndexesAgree(pre) THEN TRUE
-     ELSE \A s \in Senders :
-            IF \E r \in ReorgSenderSucc(pre, s, ans) : r.st.list[s] = o.list[s] /\ r.st.proc[s] = o.proc[s]
-            THEN TRUE
-            ELSE Report("not-a-successor:reorg",
-                        IF \E x \in (ProcTxs(o) \ ProcTxs(pre)) : x.sender = s /\ verd[x.id] = "invalid" THEN "promoted-invalid"
-                        ELSE IF ListTxs(o, s) # ListTxs(pre, s) /\ \A x \in RunTxs(pre, s) : verd[x.id] # "invalid" THEN "dropped-without-invalid-answer"
-                        ELSE IF o.proc[s] = pre.proc[s] /\ o.list[s] = pre.list[s] THEN "no-promotion"
-                        ELSE "other")
+     ELSE \A s \in Senders : ReorgSenderChecks(o, s, ans)
+
+(* ------------------- a promotion step observed in two halves --------------- *)
+\* What ONE promotion step of sender s, which read the sender's list in state s0 and has made the verifier calls cs so
+\* far, may have done to the list between the observations b and o (other calls ran in between, the step itself may not
+\* be complete yet).  Safety only:
+\*   - whatever became processable was asked in THIS step and not answered invalid (the very transaction: identity,
+\*     not nonce - a replacement that arrived meanwhile was never shown to the verifier),
+\*   - whatever left the list is a transaction of the run the step read, from its first invalid answer on,
+\*   - a promotion step adds nothing.
+PartialStep(s, s0, b, o, cs) ==
+  LET run == Run(s0, s)
+      badIdx == {i \in 1..Len(run) : TxAt(s0, s, run[i]) \in CallsBad(cs)}
+      suffix == IF badIdx = {} THEN {} ELSE {TxAt(s0, s, run[i]) : i \in SetMin(badIdx)..Len(run)}
+  IN /\ Chk((ProcOf(o, s) \ ProcOf(b, s)) \subseteq CallsOK(cs), "processable-unverified", "")
+     /\ Chk((ListTxs(b, s) \ ListTxs(o, s)) \subseteq suffix, "not-a-successor:reorg", "dropped-without-invalid-answer")
+     /\ Chk(ListTxs(o, s) \subseteq ListTxs(b, s), "not-a-successor:reorg", "added-by-promotion")
+
+Unchanged(s, b, o) == Chk(o.list[s] = b.list[s] /\ o.proc[s] = b.proc[s], "not-a-successor:reorg", "other-sender-changed")
+
+\* sender whose goroutine the harness holds inside the verifier: the pause-th call of the step
+Suspended(cs, pause) == IF pause >= 1 /\ pause <= Len(cs) THEN T(cs[pause].t).sender ELSE 0
+
+IlvChecks(e, o) ==
+  IF ~IndexesAgree(pre) \/ (Has(e, "merged") /\ e.merged = 1) THEN TRUE
+  ELSE IF e.phase = "suspended" THEN
+    \* every sender but the suspended one has completed its step
+    LET ans == [t \in Txs |-> verd[t.id]]  sp == Suspended(e.calls, e.pause) IN
+    \A s \in Senders : IF s = sp THEN PartialStep(s, pre, pre, o, e.calls) ELSE ReorgSenderChecks(o, s, ans)
+  ELSE
+    LET cs == aux.calls \o e.calls  sp == Suspended(aux.calls, e.pause) IN
+    \A s \in Senders :
+      IF s = sp
+      THEN /\ PartialStep(s, aux.s0, pre, o, cs)
+           \* the step is complete: nothing it was told is invalid is processable
+           /\ Chk(ProcOf(o, s) \cap CallsBad(cs) = {}, "not-a-successor:reorg", "invalid-stays-processable")
+      ELSE Unchanged(s, pre, o)
+
+(* ------------------------- concurrent run at quiescence ------------------- *)
+\* one value a read returned while the goroutines were running: r = [op, res]
+ReadResultChecks(r, att) ==
+  LET ids == SeqSet(r.res) IN
+  IF 0 \in ids THEN Report("read-result", r.op \o "-nil-or-unknown-entry")
+  ELSE LET txs == IdSet(r.res) IN
+       /\ Chk(Len(r.res) = Cardinality(ids), "read-result", r.op \o "-duplicate-entry")
+       /\ Chk(txs \subseteq att, "read-result", r.op \o "-never-added")
+       /\ IF r.op # "getprocessable" THEN TRUE
+          ELSE \A s \in Senders :
+                 LET mine == {x \in txs : x.sender = s}  ns == {x.nonce : x \in mine} IN
+                 Chk(ns = {} \/ (Cardinality(ns) = Cardinality(mine) /\ ns = SetMin(ns)..SetMax(ns)),
+                     "read-result", "getprocessable-not-a-run")
+
+ConcChecks(e, o) ==
+  IF ~Has(e, "added") THEN TRUE
+  ELSE
+  LET added == IdSet(e.added)  att == IdSet(e.attempted)  rem == IdSet(e.removes)  inv == IdSet(e.inval)
+      \* accepted, no Remove was ever issued for it, no transaction of its sender at or below its nonce was ever
+      \* answered invalid: in the profile without evictions and replacements nothing may take it out of the pool
+      mustStay == {x \in added : x \notin rem /\ ~\E y \in inv : y.sender = x.sender /\ y.nonce <= x.nonce}
+  IN /\ Chk(o.all \subseteq added, "not-a-successor:conc", "pooled-but-never-accepted")
+     /\ IF e.profile # "plain" THEN TRUE
+        ELSE /\ Chk(mustStay \subseteq o.all, "not-a-successor:conc", "lost-transaction")
+             /\ Note("conc-must-stay", ToString(Cardinality(mustStay)))
+     /\ \A i \in 1..Len(e.reads) : ReadResultChecks(e.reads[i], att)
 
 ReadChecks(e, o) ==
   /\ Chk(Canon(o) = Canon(pre), "not-a-successor:read", e.op)
@@ -157,34 +253,45 @@ BlockedDetail(e) ==
     [] e.op = "ilv" -> "Reorg-interleaved"
     [] e.op = "concurrent" -> "concurrent"
     [] e.op = "snapshot" -> "Snapshot"
+    [] e.op = "end" -> "End"
+    [] e.op = "startexit" -> "Start-after-End"
     [] OTHER -> e.op
 
 TInit == l = 1 /\ pre = Empty /\ cfg = [max |-> 1, acc |-> 1, diff |-> 1, minp |-> 0]
-         /\ verd = [i \in 1..Len(TxTab) |-> "ok"]
+         /\ verd = [i \in 1..Len(TxTab) |-> "ok"] /\ aux = [s0 |-> Empty, calls |-> <<>>]
          /\ Init                       \* the variables of the exhaustive model are not used by the monitor
 
 Step ==
   LET e == Ev IN
-  IF e.op = "universe" \/ e.op = "intent" THEN UNCHANGED <<pre, cfg, verd>>
+  IF e.op = "universe" \/ e.op = "intent" THEN UNCHANGED <<pre, cfg, verd, aux>>
   ELSE IF e.op = "reset" THEN
     /\ cfg' = [max |-> e.max, acc |-> e.acc, diff |-> e.diff, minp |-> e.minp]
-    /\ pre' = Empty /\ verd' = [i \in 1..Len(TxTab) |-> "ok"]
+    /\ pre' = Empty /\ verd' = [i \in 1..Len(TxTab) |-> "ok"] /\ aux' = [s0 |-> Empty, calls |-> <<>>]
   ELSE IF e.op = "verdict" THEN
-    /\ verd' = [verd EXCEPT ![e.t] = e.v] /\ UNCHANGED <<pre, cfg>>
+    /\ verd' = [verd EXCEPT ![e.t] = e.v] /\ UNCHANGED <<pre, cfg, aux>>
   ELSE IF Has(e, "blocked") /\ e.blocked = 1 THEN
-    /\ Report("operation-blocked", BlockedDetail(e)) /\ UNCHANGED <<pre, cfg, verd>>
+    /\ Report("operation-blocked", BlockedDetail(e)) /\ UNCHANGED <<pre, cfg, verd, aux>>
   ELSE IF Has(e, "panic") /\ e.panic # "" THEN
-    /\ Report("panic", e.op) /\ UNCHANGED <<pre, cfg, verd>>
+    /\ Report("panic", e.op) /\ UNCHANGED <<pre, cfg, verd, aux>>
+  ELSE IF e.op = "recheck" THEN
+    \* a value handed out by an earlier read (was) and the same value read again now, after later calls
+    /\ Chk(e.was = e.now, "returned-value-mutated", e.of) /\ UNCHANGED <<pre, cfg, verd, aux>>
+  ELSE IF e.op = "startexit" THEN UNCHANGED <<pre, cfg, verd, aux>>
   ELSE
     LET o == Obs(e.snap) IN
     /\ RawChecks(e.snap)
     /\ InvChecks(o)
-    /\ CASE e.op = "add" -> AddChecks(e, o)
+    /\ IF Has(e, "disturbed") /\ e.disturbed = 1 THEN TRUE    \* a ticker step ran during the call: invariants only
+       ELSE CASE e.op = "add" -> AddChecks(e, o)
          [] e.op = "remove" -> RemoveChecks(e, o)
          [] e.op = "reorg" -> ReorgChecks(e, o)
          [] e.op \in {"get", "getall", "getprocessable"} -> ReadChecks(e, o)
-         [] OTHER -> TRUE          \* "ilv", "concurrent": only the state at quiescence is constrained
+         [] e.op = "ilv" -> IlvChecks(e, o)
+         [] e.op = "concurrent" -> ConcChecks(e, o)
+         [] e.op = "end" -> Chk(Canon(o) = Canon(pre), "not-a-successor:end", "")
+         [] OTHER -> TRUE
     /\ pre' = o /\ UNCHANGED <<cfg, verd>>
+    /\ aux' = IF e.op = "ilv" /\ e.phase = "suspended" THEN [s0 |-> pre, calls |-> e.calls] ELSE aux
 
 TNext == l <= Len(TraceLog) /\ Step /\ l' = l + 1 /\ UNCHANGED vars
 TSpec == TInit /\ [][TNext]_<<tvars, vars>>
